@@ -435,7 +435,18 @@ fn run(sc: &Scenario, prefix: &[usize], policy: Option<Policy>, scratch: &Path) 
         };
         match db {
             Ok(db) => {
-                answers.push(sc.probes.iter().map(|p| answer(&db, p)).collect());
+                let first: Vec<String> = sc.probes.iter().map(|p| answer(&db, p)).collect();
+                // the same database asked again must answer the same (lookups are read-only): a
+                // difference here is not a scheduling effect but an answer that is not a function
+                // of query and data
+                for (i, p) in sc.probes.iter().enumerate() {
+                    let again = answer(&db, p);
+                    if again != first[i] {
+                        open_errors.push(format!("the same database answered probe {p:?} twice differently: [{}] then [{again}]", first[i]));
+                        break;
+                    }
+                }
+                answers.push(first);
                 for p in sc.probes.iter().filter(|p| p.contains(' ')).take(64) {
                     // only for data sets the session was built from
                     if sc.own_words.contains(p) && *assets == sc.sessions.last().unwrap().1 {
